@@ -48,11 +48,11 @@ def lockfile(dst_dir):
     shutil.copy(os.path.join(dcv.REPO, "Cargo.lock"), os.path.join(dst_dir, "Cargo.lock"))
 
 
-def build_crdt_timestamp_only(ws, mode, harness_files, name="crdt"):
+def build_crdt_timestamp_only(ws, mode, harness_files, name="crdt", features=()):
     """datacake-crdt with the real lib.rs / orswot.rs and timestamp.rs + appended harness modules."""
     d = ws.path(name)
     os.makedirs(os.path.join(d, "src"), exist_ok=True)
-    dcv.write(os.path.join(d, "Cargo.toml"), CRDT_CARGO.format(deps=crdt_dependencies(), extra_features=""))
+    dcv.write(os.path.join(d, "Cargo.toml"), CRDT_CARGO.format(deps=crdt_dependencies(), extra_features="verif_replay = []"))
     lockfile(d)
     mounted = []
     mounted.append(dcv.mount("datacake-crdt/src/lib.rs", os.path.join(d, "src/lib.rs")))
